@@ -1,12 +1,12 @@
 #!/bin/bash
 # run EVERY registered check against a scratch copy of /repo with a behaviour-preserving patch; no check may exit 1
+# (HARM_PAR checks at a time, default 4)
 cd "$(dirname "$(readlink -f "$0")")/.."; V=$(pwd)
+props=$(python3 -c "import json;print(' '.join(c['property_id'] for c in json.load(open('MANIFEST.json'))['checks']))")
 for d in seeded/harmless_*; do
   tmp=$(mktemp -d /tmp/harm.XXXX); mkdir -p $tmp/repo; cp -r /repo/src $tmp/repo/
   (cd $tmp/repo && git init -q . && git apply $V/$d/patch.diff) || { echo "$d patch-does-not-apply"; rm -rf $tmp; continue; }
-  for p in $(python3 -c "import json;print(' '.join(c['property_id'] for c in json.load(open('MANIFEST.json'))['checks']))"); do
-    out=$(VERIF_REPO=$tmp/repo python3-vt check.py $p 2>&1); rc=$?
-    echo "$(basename $d) $p exit=$rc :: $(echo "$out" | grep -E '^(VIOLATION|UNDECIDED)' | head -2 | tr '\n' ' ' | cut -c1-260)"
-  done
+  b=$(basename $d)
+  echo $props | tr ' ' '\n' | xargs -P ${HARM_PAR:-4} -I{} bash -c "out=\$(VERIF_REPO=$tmp/repo VERIF_OUT_TAG=$b-{} python3-vt check.py {} --jobs 4 2>&1); rc=\$?; echo \"$b {} exit=\$rc :: \$(echo \"\$out\" | grep -E '^(VIOLATION|UNDECIDED)' | head -2 | tr '\n' ' ' | cut -c1-260)\"" | sort
   rm -rf $tmp
 done
